@@ -1,11 +1,13 @@
 package checks
 
 import (
+	"bytes"
 	"fmt"
 	"math/rand"
 	"runtime"
 	"sync"
 	"sync/atomic"
+	"time"
 
 	multiproof "github.com/crate-crypto/go-ipa"
 	"github.com/crate-crypto/go-ipa/bandersnatch/fr"
@@ -22,7 +24,7 @@ func init() {
 		ID:    "C12",
 		Title: "A shared configuration can be used concurrently without interference",
 		Rule: "race-detector build; one shared IPAConfig; a seed-determined list of operation instances of 14 kinds (Commit, CreateMultiProof with n up to 64 > W, CheckMultiProof incl. invalid statements, Create+CheckIPAProof, MultiScalar/MultiExp with split paths, element operations, batch helpers, transcripts, fr functions using the shared big.Int pool, point codecs, fp square roots, parallel.Execute, GenerateRandomPoints, a second NewIPASettings) " +
-			"is executed by G in {8,32,64} goroutines (quick {8,32}) on private argument objects sharing one still-cold configuration, and then alone on a second, fresh configuration; several goroutines running the same instance at the same time; events {goroutine, instance, call/return sequence numbers from one atomic counter, output digest} are recorded at the client boundary; " +
+			"is executed by G in {8,32,64} goroutines (quick {8,32}) on private argument objects sharing one still-cold configuration, and then alone on a second, fresh configuration; several goroutines running the same instance at the same time; events {goroutine, instance, call/return stamps from the monotonic clock (a shared atomic counter would add happens-before edges between the goroutines and hide races from the detector), output digest} are recorded at the client boundary; " +
 			"oracles: every output equals the sequential output, zero race reports, configuration and package-constant fingerprints (incl. all 350 MB of tables) unchanged, bounded progress; GOMAXPROCS {1,2,4,16} x NumCPU {2,4,16} with H7 delays; additional cold-start child processes whose very first library calls are made by 20 goroutines at once (lazily initialised package state), compared with the same calls made alone afterwards; APIs that only read their arguments are also called on objects shared by all goroutines; a class is (operation kind, G, GOMAXPROCS, NumCPU); non-trivial = executed while at least one other operation was in flight",
 		HangIsViolation:  true,
 		CaseLimitS:       map[string]int{"quick": 600, "thorough": 2400},
@@ -75,6 +77,14 @@ type c12event struct {
 	panicked  interface{}
 }
 
+var c12t0 = time.Now()
+
+// c12stamp is a monotonic time stamp. The stamps only serve the overlap statistics (which operations were in flight
+// together); no verdict depends on them. They deliberately do not come from a shared atomic counter: the race detector
+// treats atomic operations as synchronisation, and a counter bumped by every goroutine around every call would order
+// almost all accesses of different goroutines and silence reports of real races.
+func c12stamp() int64 { return int64(time.Since(c12t0)) }
+
 // c12cold: the very first library calls of a fresh process are made by many goroutines at once (lazily initialised
 // package state - tables built on first use, sync.Once/initOnce paths, pools - sees its first use concurrently);
 // afterwards the same instances are executed alone in the warm process and must give the same outputs.
@@ -100,7 +110,6 @@ func c12cold(c *mon.Ctx) {
 	c.Case("coldstart/concurrent-first-use", func() {
 		var wg sync.WaitGroup
 		start := make(chan struct{})
-		var seq int64
 		for g := 0; g < G; g++ {
 			g := g
 			wg.Add(1)
@@ -109,10 +118,10 @@ func c12cold(c *mon.Ctx) {
 				<-start
 				for i := 0; i < len(kinds); i++ {
 					in := c12inst{kinds[(g+i)%len(kinds)], i % 3} // goroutines g and g+10 make the same first call
-					ev := c12event{g: g, inst: in, call: atomic.AddInt64(&seq, 1)}
+					ev := c12event{g: g, inst: in, call: c12stamp()}
 					p, _ := mon.Try(func() { ev.digest = o.exec(in.kind, in.k) })
 					ev.panicked = p
-					ev.ret = atomic.AddInt64(&seq, 1)
+					ev.ret = c12stamp()
 					events[g] = append(events[g], ev)
 				}
 			}()
@@ -285,7 +294,6 @@ func runC12(c *mon.Ctx) {
 
 	// ---- concurrent phase first, on the cold shared configuration ----
 	mon.SchedTake()
-	var seq int64
 	rounds := []int{8, 32}
 	if c.Thorough() {
 		rounds = []int{8, 32, 64}
@@ -341,10 +349,10 @@ func runC12(c *mon.Ctx) {
 						og = oC
 					}
 					for _, in := range plan {
-						ev := c12event{g: g, inst: in, call: atomic.AddInt64(&seq, 1)}
+						ev := c12event{g: g, inst: in, call: c12stamp()}
 						p, _ := mon.Try(func() { ev.digest = og.exec(in.kind, in.k) })
 						ev.panicked = p
-						ev.ret = atomic.AddInt64(&seq, 1)
+						ev.ret = c12stamp()
 						events[g] = append(events[g], ev)
 					}
 				}()
@@ -450,6 +458,10 @@ func runC12(c *mon.Ctx) {
 		snapS := append([]fr.Element(nil), o.sharedScalars...)
 		snapP := append([]banderwagon.Element(nil), o.sharedPoints...)
 		snapF := append([]fr.Element(nil), o.sharedPoly...)
+		var snapB [][]byte
+		for _, b := range o.sharedBytes {
+			snapB = append(snapB, append([]byte(nil), b...))
+		}
 		var done int32
 		var polls, torn int64
 		var firstTorn atomic.Value
@@ -468,6 +480,12 @@ func runC12(c *mon.Ctx) {
 					if v := o.sharedPoints[i]; v != snapP[i] {
 						torn++
 						firstTorn.Store(fmt.Sprintf("shared point %d observed modified", i))
+					}
+				}
+				for i := range snapB {
+					if !bytes.Equal(o.sharedBytes[i], snapB[i]) {
+						torn++
+						firstTorn.Store(fmt.Sprintf("shared byte string %d observed modified", i))
 					}
 				}
 				for i := 0; i < len(snapF); i += 17 {
@@ -515,6 +533,7 @@ func runC12(c *mon.Ctx) {
 			ch := tr.ChallengeScalar([]byte("c"))
 			cb := ch.Bytes()
 			d.add(cb[:])
+			o.decodeShared(&d)
 			return d.sum()
 		}
 		want := light()
